@@ -140,6 +140,31 @@ theorem C17_traceback (sub : σ → σ → α) (gap : α) (s1 s2 : List σ) (ord
   exact ⟨cols, h1, by rw [colsFst_reverse, h2, List.reverse_reverse],
     by rw [colsSnd_reverse, h3, List.reverse_reverse], by rw [colsScore_reverse, h4]; rfl⟩
 
+/-- **Transposition**: swapping the two sequences and transposing the substitution function leaves
+every cell of the recurrence unchanged (the gap cost is the same for both sequences in `dp.dp`). -/
+theorem nwSpec_transpose (sub : σ → σ → α) (gap : α) (xs zs : List σ) :
+    nwSpec (fun a b => sub b a) gap zs xs = nwSpec sub gap xs zs := by
+  induction xs generalizing zs with
+  | nil => rw [nwSpec_nil_left, nwSpec_nil_right]
+  | cons x xs ihx =>
+    induction zs with
+    | nil => rw [nwSpec_nil_left, nwSpec_nil_right]
+    | cons z zs ihz =>
+      rw [nwSpec_cons, nwSpec_cons, ihz, ihx (z :: zs), ihx zs]
+      congr 1
+      exact min_comm _ _
+
+/-- … so the value returned for `(s2, s1)` under the transposed scoring is the value for `(s1, s2)`,
+and for a symmetric scoring (the default one, a symmetric dictionary) the value is symmetric. -/
+theorem C17_transpose (sub : σ → σ → α) (gap : α) (s1 s2 : List σ) :
+    nwValue (fun a b => sub b a) gap s2 s1 = nwValue sub gap s1 s2 :=
+  nwSpec_transpose sub gap s1.reverse s2.reverse
+
+theorem C17_symmetric (sub : σ → σ → α) (gap : α) (hsym : ∀ a b, sub a b = sub b a) (s1 s2 : List σ) :
+    nwValue sub gap s2 s1 = nwValue sub gap s1 s2 := by
+  have h : (fun a b => sub b a) = sub := by funext a b; exact (hsym a b).symm
+  simpa [h] using C17_transpose sub gap s1 s2
+
 /-- non-vacuity on the docstring example: GATTACA / GCATGCU with the default scoring has cost 0 -/
 example :
     let sub : Char → Char → Int := fun a b => if a = b then -1 else 1
